@@ -7,6 +7,7 @@ from props import cg, paniclib
 from props.c19_table import TABLE
 from props.rt import desc
 
+ENGINE = 'mirfacts+genscan'
 EXPLANATION = ('On type-checked MIR of logos-codegen: (a) inventory of every panic-capable construct reachable in the crate-local call graph from generate '
                '(unwrap/expect, panicking::*, Index::index, documented-panic std/syn calls, overflow/bounds/division assertions): each must be in a justification table, '
                'new sites are reported; (b) single gate: Generator::new/generate are dominated by the None edge of Errors::render(parser.errors), no error can be recorded after it, '
